@@ -2377,6 +2377,9 @@ func decodeGenericInterfaceCounters(data *[]byte) (SFlowGenericInterfaceCounters
 	gic := SFlowGenericInterfaceCounters{}
 	var cdf SFlowCounterDataFormat
 
+	if len(*data) < 96 {
+		return SFlowGenericInterfaceCounters{}, errors.New("generic interface counters too small")
+	}
 	*data, cdf = (*data)[4:], SFlowCounterDataFormat(binary.BigEndian.Uint32((*data)[:4]))
 	gic.EnterpriseID, gic.Format = cdf.decode()
 	*data, gic.FlowDataLength = (*data)[4:], binary.BigEndian.Uint32((*data)[:4])
@@ -2437,6 +2440,9 @@ func decodeEthernetCounters(data *[]byte) (SFlowEthernetCounters, error) {
 	ec := SFlowEthernetCounters{}
 	var cdf SFlowCounterDataFormat
 
+	if len(*data) < 4 {
+		return SFlowEthernetCounters{}, errors.New("ethernet counters too small")
+	}
 	*data, cdf = (*data)[4:], SFlowCounterDataFormat(binary.BigEndian.Uint32((*data)[:4]))
 	ec.EnterpriseID, ec.Format = cdf.decode()
 	if len(*data) < 4 {
@@ -2514,6 +2520,9 @@ func decodeVLANCounters(data *[]byte) (SFlowVLANCounters, error) {
 	vc := SFlowVLANCounters{}
 	var cdf SFlowCounterDataFormat
 
+	if len(*data) < 36 {
+		return SFlowVLANCounters{}, errors.New("VLAN counters too small")
+	}
 	*data, cdf = (*data)[4:], SFlowCounterDataFormat(binary.BigEndian.Uint32((*data)[:4]))
 	vc.EnterpriseID, vc.Format = cdf.decode()
 	vc.EnterpriseID, vc.Format = cdf.decode()
@@ -2553,6 +2562,9 @@ func decodeLACPCounters(data *[]byte) (SFlowLACPCounters, error) {
 	la := SFlowLACPCounters{}
 	var cdf SFlowCounterDataFormat
 
+	if len(*data) < 64 {
+		return SFlowLACPCounters{}, errors.New("LACP counters too small")
+	}
 	*data, cdf = (*data)[4:], SFlowCounterDataFormat(binary.BigEndian.Uint32((*data)[:4]))
 	la.EnterpriseID, la.Format = cdf.decode()
 	*data, la.FlowDataLength = (*data)[4:], binary.BigEndian.Uint32((*data)[:4])
@@ -2610,6 +2622,9 @@ func decodeProcessorCounters(data *[]byte) (SFlowProcessorCounters, error) {
 	var cdf SFlowCounterDataFormat
 	var high32, low32 uint32
 
+	if len(*data) < 36 {
+		return SFlowProcessorCounters{}, errors.New("processor counters too small")
+	}
 	*data, cdf = (*data)[4:], SFlowCounterDataFormat(binary.BigEndian.Uint32((*data)[:4]))
 	pc.EnterpriseID, pc.Format = cdf.decode()
 	*data, pc.FlowDataLength = (*data)[4:], binary.BigEndian.Uint32((*data)[:4])
@@ -2682,6 +2697,9 @@ func decodeOpenflowportCounters(data *[]byte) (SFlowOpenflowPortCounters, error)
 	ofp := SFlowOpenflowPortCounters{}
 	var cdf SFlowCounterDataFormat
 
+	if len(*data) < 20 {
+		return SFlowOpenflowPortCounters{}, errors.New("openflow port counters too small")
+	}
 	*data, cdf = (*data)[4:], SFlowCounterDataFormat(binary.BigEndian.Uint32((*data)[:4]))
 	ofp.EnterpriseID, ofp.Format = cdf.decode()
 	*data, ofp.FlowDataLength = (*data)[4:], binary.BigEndian.Uint32((*data)[:4])
@@ -2708,6 +2726,9 @@ func decodeAppresourcesCounters(data *[]byte) (SFlowAppresourcesCounters, error)
 	app := SFlowAppresourcesCounters{}
 	var cdf SFlowCounterDataFormat
 
+	if len(*data) < 48 {
+		return SFlowAppresourcesCounters{}, errors.New("app resources counters too small")
+	}
 	*data, cdf = (*data)[4:], SFlowCounterDataFormat(binary.BigEndian.Uint32((*data)[:4]))
 	app.EnterpriseID, app.Format = cdf.decode()
 	*data, app.FlowDataLength = (*data)[4:], binary.BigEndian.Uint32((*data)[:4])
@@ -2738,6 +2759,9 @@ func decodeOVSDPCounters(data *[]byte) (SFlowOVSDPCounters, error) {
 	dp := SFlowOVSDPCounters{}
 	var cdf SFlowCounterDataFormat
 
+	if len(*data) < 32 {
+		return SFlowOVSDPCounters{}, errors.New("OVS datapath counters too small")
+	}
 	*data, cdf = (*data)[4:], SFlowCounterDataFormat(binary.BigEndian.Uint32((*data)[:4]))
 	dp.EnterpriseID, dp.Format = cdf.decode()
 	*data, dp.FlowDataLength = (*data)[4:], binary.BigEndian.Uint32((*data)[:4])
@@ -2758,24 +2782,35 @@ type SFlowPORTNAME struct {
 	Str string
 }
 
-func decodeString(data *[]byte) (len uint32, str string) {
-	*data, len = (*data)[4:], binary.BigEndian.Uint32((*data)[:4])
-	str = string((*data)[:len])
-	if (len % 4) != 0 {
-		len += 4 - len%4
+func decodeString(data *[]byte) (length uint32, str string, err error) {
+	if len(*data) < 4 {
+		return 0, "", errors.New("sflow string too small")
 	}
-	*data = (*data)[len:]
-	return
+	*data, length = (*data)[4:], binary.BigEndian.Uint32((*data)[:4])
+	padded, err := sflowPaddedLen(*data, length)
+	if err != nil {
+		return 0, "", err
+	}
+	str = string((*data)[:length])
+	*data = (*data)[padded:]
+	// The returned length includes the padding.
+	return uint32(padded), str, nil
 }
 
 func decodePortnameCounters(data *[]byte) (SFlowPORTNAME, error) {
 	pn := SFlowPORTNAME{}
 	var cdf SFlowCounterDataFormat
 
+	if len(*data) < 8 {
+		return SFlowPORTNAME{}, errors.New("port name counters too small")
+	}
 	*data, cdf = (*data)[4:], SFlowCounterDataFormat(binary.BigEndian.Uint32((*data)[:4]))
 	pn.EnterpriseID, pn.Format = cdf.decode()
 	*data, pn.FlowDataLength = (*data)[4:], binary.BigEndian.Uint32((*data)[:4])
-	pn.Len, pn.Str = decodeString(data)
+	var err error
+	if pn.Len, pn.Str, err = decodeString(data); err != nil {
+		return SFlowPORTNAME{}, err
+	}
 
 	return pn, nil
 }
